@@ -92,10 +92,14 @@ CHECKS = {
         "lookup/allocate/insert protocol returns one object to all threads, stores one entry, and later lookups return it; "
         "C20_unlocked_refuted exhibits the race without the lock. Tied to the code by an AST-derived obligation that each "
         "__new__ performs check-then-insert inside one `with _interning:` region, and by executing every preemption-bounded "
-        "2-thread schedule and random 3-thread schedules on the real code with a sys.settrace scheduler.",
+        "2-thread schedule and random 3-thread schedules on the real code with a sys.settrace scheduler. "
+        "Theorem C20_program_safe: each __new__ is translated at every run into an instruction program (Model/NewProg.v); every "
+        "program accepted by the proved abstract interpretation prog_safe gives one object per key to any number of threads under "
+        "every schedule; the three regenerated programs are accepted (Gen_newprog) and every observed line schedule of the direct "
+        "constructor calls replays on the translated program in the kernel (same control flow, same sharing of objects).",
    note=TB + "Partial by nature: atomicity is the source line (as the property states); bytecode-level preemption, the GIL and "
         "free-threaded builds are not modelled. Axioms: none.",
-   tech="Rocq proof: lock invariant over all interleavings + exhaustive bounded schedule replay", ref="DESIGN.md §4 C20"),
+   tech="Rocq proof: lock invariant over all interleavings; sound abstract interpretation of the translated constructor programs; kernel replay of observed schedules", ref="DESIGN.md §4 C20"),
  "C03": dict(
    text="Theorems over the quantity-dispatch model (Python's reflected-operator protocol, every dunder of Quantity/Unit/Prefix, "
         "functools.total_ordering): C03_mul_dims, C03_div_dims_partial (+ C03_refuted_rtruediv for number/quantity, a known finding), "
